@@ -126,6 +126,27 @@ func (e *env) kvRegisters(idx int) error {
 	if e.r.Intn(2) == 0 {
 		keys = append(keys, "z")
 	}
+	// every second history runs at a child version whose committed parent holds a value for every key: a register
+	// that loses both its value and its deletion marker does not read "absent" there, it reads the parent's value
+	model := kvModel
+	at := "root"
+	if idx%2 == 1 {
+		for _, k := range keys {
+			if r, err := e.w.Post("/api/node/"+root+"/kv/key/"+k, []byte("anc")); err != nil || !r.OK() {
+				return fmt.Errorf("ancestor value: %v %v", r, err)
+			}
+		}
+		if err := e.cl.Commit(root); err != nil {
+			return err
+		}
+		child, err := e.cl.NewVersion(root)
+		if err != nil {
+			return err
+		}
+		root, at = child, "child-of-committed-parent-holding-the-keys"
+		model.Init = func() interface{} { return "anc" }
+	}
+	e.c.Seen("kv_register_versions", at)
 	dl := e.delays()
 	var ops []porcupine.Operation
 	seq := 0
@@ -173,7 +194,7 @@ func (e *env) kvRegisters(idx int) error {
 		}
 		ops = append(ops, porcupine.Operation{ClientId: 99, Input: kvIn{k, "get", ""}, Call: t, Output: kvOut{rp.Status, string(rp.Body)}, Return: t + 10})
 	}
-	res, info := porcupine.CheckOperationsVerbose(kvModel, ops, 60*time.Second)
+	res, info := porcupine.CheckOperationsVerbose(model, ops, 60*time.Second)
 	sig := interleaving(ops)
 	e.c.Case(fmt.Sprintf("kvreg|%d|%s", idx, drv.Hash(sig)), len(ops) >= 8)
 	e.c.Seen("kv_interleaving_signatures", drv.Hash(sig))
@@ -188,7 +209,7 @@ func (e *env) kvRegisters(idx int) error {
 			desc = append(desc, fmt.Sprintf("[%d,%d] %s", o.Call, o.Return, kvModel.DescribeOperation(o.Input, o.Output)))
 		}
 		_ = info
-		e.c.Violation("keyvalue:not-linearizable", fmt.Sprintf("keyvalue history of %d operations on keys %v (delays %s) is not linearizable", len(ops), keys, dl), map[string]interface{}{"history": desc})
+		e.c.Violation("keyvalue:not-linearizable", fmt.Sprintf("keyvalue history of %d operations on keys %v at the %s (delays %s) is not linearizable", len(ops), keys, at, dl), map[string]interface{}{"history": desc, "version": at})
 	}
 	if idx == 0 {
 		var desc []string
@@ -299,6 +320,19 @@ func (e *env) annotations(idx int) error {
 		kinds = append(kinds, "post")
 	}
 	mode := e.r.Intn(3)
+	// every second time: 2-4 of the concurrent requests re-post ONE stored element with different tag sets (a tag edit
+	// racing another tag edit): whichever request wins, every view must agree on the tags the element ends up with
+	var retagPos *[3]int
+	if idx%2 == 1 {
+		p := pre[2]
+		retagPos = &p
+		sets := [][]string{{"t1"}, {"shared", "t2"}, {"t1", "t2"}, {"shared"}}
+		for k := 0; k < 2+e.r.Intn(3); k++ {
+			b, _ := json.Marshal([]map[string]interface{}{{"Pos": p, "Kind": "Note", "Tags": sets[k]}})
+			reqs = append(reqs, drv.Req{Method: "POST", URL: base + "elements", Body: b})
+			kinds = append(kinds, "retag")
+		}
+	}
 	var moved [3]int
 	if mode >= 1 { // one concurrent delete of a pre-existing element
 		p := pre[0]
@@ -344,6 +378,28 @@ func (e *env) annotations(idx int) error {
 	e.c.Seen("ann_interleaving_signatures", drv.Hash(sig))
 	e.c.Seen("delay_profiles", dl)
 	e.c.Count("annotation_concurrent_requests", len(reqs))
+	if retagPos != nil {
+		rp, err := e.w.Get(base + "elements/64_64_64/0_0_0")
+		if err != nil {
+			return err
+		}
+		el, ok := parseEls(rp.Body)[*retagPos]
+		has := map[string]bool{}
+		for _, t := range el.Tags {
+			has[t] = true
+		}
+		for _, t := range []string{"shared", "t1", "t2"} {
+			tr, err := e.w.Get(base + "tag/" + t)
+			if err != nil {
+				return err
+			}
+			_, listed := parseEls(tr.Body)[*retagPos]
+			if ok && listed != has[t] {
+				e.c.Violation("annotation:tag-view-disagrees-after-concurrent-retag", fmt.Sprintf("concurrent re-posts of element %v with different tag sets (all acknowledged, delays %s): the element is stored with tags %v but GET tag/%s lists it: %v", *retagPos, dl, el.Tags, t, listed),
+					map[string]interface{}{"kinds": kinds, "stored_tags": el.Tags, "tag": t, "listed": listed, "overlap": sig})
+			}
+		}
+	}
 	views := map[string]string{"block": base + "elements/64_64_64/0_0_0", "tag": base + "tag/shared", "all": base + "all-elements"}
 	for name, url := range views {
 		rp, err := e.w.Get(url)
@@ -364,8 +420,15 @@ func (e *env) annotations(idx int) error {
 				got[p] = true
 			}
 		}
+		if name == "tag" && retagPos != nil {
+			// the re-tagged element's membership in the shared-tag view was judged above against its stored tags
+			delete(got, *retagPos)
+		}
 		var missing, extra [][3]int
 		for p := range expect {
+			if name == "tag" && retagPos != nil && p == *retagPos {
+				continue
+			}
 			if !got[p] {
 				missing = append(missing, p)
 			}
@@ -636,13 +699,36 @@ func (e *env) versions(idx int) error {
 		}
 		parent, parentBranch = b, "pb"
 	}
+	// every third time: the same NEW branch name asked for on different committed parents of the repo at once
+	var otherParents []string
+	if idx%3 == 2 {
+		cur := parent
+		for k := 0; k < 2; k++ {
+			ch, err := e.cl.NewVersion(cur)
+			if err != nil {
+				return err
+			}
+			if err := e.cl.Commit(ch); err != nil {
+				return err
+			}
+			otherParents = append(otherParents, ch)
+			cur = ch
+		}
+		otherParents = append([]string{parent}, otherParents[:len(otherParents)-1]...) // committed nodes that already have their master child
+	}
 	dl := e.delays()
 	n := 2 + e.r.Intn(7)
 	kind := []string{"newversion", "branch-same-name", "mixed"}[e.r.Intn(3)]
+	if len(otherParents) > 0 {
+		kind = "branch-same-name-different-parents"
+	}
 	var reqs []drv.Req
 	var slot []string // branch the request asks a child for
 	for i := 0; i < n; i++ {
 		switch {
+		case len(otherParents) > 0:
+			reqs = append(reqs, drv.Req{Method: "POST", URL: "/api/node/" + otherParents[i%len(otherParents)] + "/branch", Body: []byte(`{"branch":"same"}`)})
+			slot = append(slot, "same")
 		case kind == "newversion" || (kind == "mixed" && i%2 == 0):
 			reqs = append(reqs, drv.Req{Method: "POST", URL: "/api/node/" + parent + "/newversion", Body: []byte(`{"note":"x"}`)})
 			slot = append(slot, parentBranch)
